@@ -198,7 +198,7 @@ func RunCase(t *testing.T, sc *Scenario, c *Case, trace bool) (out RunOutcome) {
 				out.Internal = "panic in bubble: " + msg
 			}
 		}()
-		synctest.Test(t, func(t *testing.T) {
+		bubble(t, func(t *testing.T) {
 			sim = kernel.NewSim(tape)
 			sim.TraceOn = trace
 			defer func() {
@@ -214,9 +214,115 @@ func RunCase(t *testing.T, sc *Scenario, c *Case, trace bool) (out RunOutcome) {
 	out.Sim = sim
 	out.Tape = tape.Rec
 	if sim != nil {
+		if sim.PostRun != nil && out.Internal == "" {
+			sim.PostRun()
+		}
+		if kernel.RaceBuild {
+			for _, rep := range newRaceReports() {
+				if !raceInvolvesCedar(rep) {
+					// neither access was made by (or on behalf of) cedar code: an artefact of running
+					// un-instrumented simulator code under the detector, not a statement about cedar
+					sim.Probes["race-report-without-cedar-frame"]++
+					if os.Getenv("VERIF_DEBUG_RACE") != "" {
+						fmt.Fprintln(os.Stderr, "RACE-OUTSIDE-CEDAR:", rep)
+					}
+					continue
+				}
+				sim.Violations = append(sim.Violations, kernel.Violation{Class: "data-race", Sig: RaceSignature(rep), Msg: rep})
+			}
+		}
 		out.Violations = sim.Violations
 	}
 	return out
+}
+
+// bubble runs f in a synctest bubble. Under the race detector the testing package
+// fails (and stops) the test a bubble belongs to when a race was reported during
+// it; a throw-away subtest takes that failure so that the driver carries on and
+// reports the race itself, attributed to the case.
+func bubble(t *testing.T, f func(t *testing.T)) {
+	if !kernel.RaceBuild {
+		synctest.Test(t, f)
+		return
+	}
+	t.Run("case", func(t2 *testing.T) { synctest.Test(t2, f) })
+}
+
+var raceLogOff int64
+
+// newRaceReports returns the race detector reports written since the last call.
+// The worker runs with GORACE=log_path=<file> halt_on_error=0, so that a report is
+// attributed to the case that was running and the process carries on.
+func newRaceReports() []string {
+	lp := ""
+	for _, f := range strings.Fields(os.Getenv("GORACE")) {
+		if strings.HasPrefix(f, "log_path=") {
+			lp = f[len("log_path="):]
+		}
+	}
+	if lp == "" {
+		return nil
+	}
+	b, err := os.ReadFile(fmt.Sprintf("%s.%d", lp, os.Getpid()))
+	if err != nil || int64(len(b)) <= raceLogOff {
+		return nil
+	}
+	txt := string(b[raceLogOff:])
+	raceLogOff = int64(len(b))
+	var out []string
+	for _, part := range strings.Split(txt, "==================") {
+		if strings.Contains(part, "WARNING: DATA RACE") {
+			if len(part) > 6000 {
+				part = part[:6000]
+			}
+			out = append(out, strings.TrimSpace(part))
+		}
+	}
+	return out
+}
+
+// raceInvolvesCedar: at least one of the two access stacks (not the goroutine-creation
+// stacks) contains a frame of the module under test. Every access cedar makes, directly
+// or through a library it calls, has such a frame, because cedar is compiled instrumented.
+func raceInvolvesCedar(rep string) bool {
+	if i := strings.Index(rep, "\nGoroutine "); i >= 0 {
+		rep = rep[:i]
+	}
+	for _, l := range strings.Split(rep, "\n") {
+		l = strings.TrimSpace(l)
+		if strings.HasPrefix(l, "github.com/bbockelm/cedar/") && !strings.HasPrefix(l, "github.com/bbockelm/cedar/verifhook.") {
+			return true
+		}
+	}
+	return false
+}
+
+// RaceSignature names a race by the first non-runtime function of each of the two accesses.
+func RaceSignature(rep string) string {
+	var fns []string
+	lines := strings.Split(rep, "\n")
+	for i := 0; i < len(lines); i++ {
+		l := strings.TrimSpace(lines[i])
+		if !(strings.Contains(l, " at 0x") && strings.HasSuffix(l, ":")) || strings.HasPrefix(l, "Goroutine") {
+			continue
+		}
+		fn := "?"
+		for j := i + 1; j < len(lines) && strings.TrimSpace(lines[j]) != ""; j += 2 {
+			f := strings.TrimSpace(lines[j])
+			if strings.HasPrefix(f, "runtime.") || strings.HasPrefix(f, "internal/") || strings.HasPrefix(f, "sync.") || strings.HasPrefix(f, "sync/") {
+				continue
+			}
+			fn = strings.TrimSuffix(f, "()")
+			break
+		}
+		fn = strings.TrimPrefix(fn, "github.com/bbockelm/cedar/")
+		fns = append(fns, fn)
+	}
+	sort.Strings(fns)
+	if len(fns) > 2 {
+		fns = fns[:2]
+	}
+	return strings.Join(fns, "<->")
 }
 
 func envInt(name string, def int) int {
@@ -387,10 +493,10 @@ func runMode(t *testing.T, property string, scenarios []*Scenario) {
 			if hashList {
 				res.HashList = append(res.HashList, strconv.FormatUint(sim.Hash(), 36))
 			}
-			for k, v := range sim.Faults {
+			for k, v := range sim.AllFaults() {
 				res.Faults[k] += v
 			}
-			for k, v := range sim.Probes {
+			for k, v := range sim.AllProbes() {
 				res.Probes[k] += v
 			}
 			if sim.Quiescent {
@@ -400,7 +506,7 @@ func runMode(t *testing.T, property string, scenarios []*Scenario) {
 				st.Overrun++
 			}
 			nfault := 0
-			for _, v := range sim.Faults {
+			for _, v := range sim.AllFaults() {
 				nfault += v
 			}
 			if nfault > 0 || sim.SchedForks > 0 {
@@ -417,7 +523,7 @@ func runMode(t *testing.T, property string, scenarios []*Scenario) {
 						head = head[:40]
 					}
 					res.Samples = append(res.Samples, Sample{Case: c, Steps: oc2.Sim.Step, Forks: oc2.Sim.SchedForks,
-						Faults: oc2.Sim.Faults, TraceHead: head, Hash: fmt.Sprintf("%016x", oc2.Sim.Hash())})
+						Faults: oc2.Sim.AllFaults(), TraceHead: head, Hash: fmt.Sprintf("%016x", oc2.Sim.Hash())})
 					if oc2.Sim.Hash() != sim.Hash() {
 						if sc.ResidualNondeterminism != "" {
 							// a documented source the simulator does not own (see the scenario); counted
@@ -492,6 +598,9 @@ func runMode(t *testing.T, property string, scenarios []*Scenario) {
 		b, _ := json.Marshal(res)
 		if err := os.WriteFile(out, b, 0o644); err != nil {
 			t.Fatalf("write result: %v", err)
+		}
+		if kernel.RaceBuild {
+			os.Exit(0) // races were turned into violations case by case; testing's own verdict is not used
 		}
 	} else {
 		b, _ := json.MarshalIndent(struct {
